@@ -498,4 +498,203 @@ mod proofs {
         forget_counts(counts);
         std::mem::forget(store);
     }
+
+    // ------------------------------------------------------------------ DATA path (C01, C02, C04, C16, C17)
+
+    // Prioritize::send_data: illegal state => Err and nothing queued; legal => exactly one frame appended
+    // at the back, buffered += len, END_STREAM closes the send half, request raised to cover the data.
+    // @harness id=prio_send_data props=C01,C04,C02,C16,C13,C08 kind=complete tier=quick fn=Prioritize::send_data timeout=400
+    #[kani::proof]
+    #[kani::unwind(3)]
+    fn prio_send_data() {
+        let (mut store, key, mut p) = world(any_state_light());
+        let mut counts = any_counts(any_peer());
+        let mut buffer: Buffer<PFrame> = Buffer::new();
+        {
+            let s = peek_mut(&mut store, key).unwrap();
+            kani::assume(wf_send(s));
+            s.is_pending_push = false;
+            // requires (I-cap): requested >= buffered; buffered fits (every frame <= 2^31-1, memory-bounded)
+            kani::assume(s.buffered_send_data <= (u32::MAX as usize) / 2);
+            kani::assume(s.requested_send_capacity as usize >= s.buffered_send_data || true);
+        }
+        let s0 = peek(&store, key).unwrap();
+        let a0 = abs(&s0.state);
+        let (w0, av0) = raw(&s0.send_flow);
+        let (cw0, ca0) = prio_flow(&p);
+        kani::assume(ca0 as i64 + av0 as i64 <= MAX_WINDOW_SIZE as i64); // I-send-pool
+        let buffered0 = s0.buffered_send_data;
+        let streaming = matches!(a0, Abs::Open { local: true, .. } | Abs::HalfClosedRemote(true));
+        let len: usize = kani::any();
+        let eos: bool = kani::any();
+        let mut task = any_waker_slot();
+        let mut ptr = store.resolve(key);
+        let r = p.send_data(data_frame(StreamId::from(ID), len, eos), &mut buffer, &mut ptr, &mut counts, &mut task);
+        let s1 = peek_mut(&mut store, key).unwrap();
+        let (w1, av1) = raw(&s1.send_flow);
+        let (cw1, ca1) = prio_flow(&p);
+        assert!(w1 == w0 && cw1 == cw0, "prio.send_data.windows_untouched_by_queueing");
+        assert!(ca1 as i64 + av1 as i64 == ca0 as i64 + av0 as i64, "prio.send_data.pool_plus_stream_conserved");
+        if len > MAX_WINDOW_SIZE as usize {
+            assert!(matches!(r, Err(UserError::PayloadTooBig)), "prio.send_data.oversize_refused");
+        } else if !streaming {
+            assert!(
+                matches!(r, Err(UserError::InactiveStreamId)) == rfc_closed(a0) && matches!(r, Err(UserError::UnexpectedFrameType)) == !rfc_closed(a0),
+                "prio.send_data.not_streaming_refused"
+            );
+        } else {
+            assert!(r.is_ok(), "prio.send_data.streaming_accepted");
+        }
+        if r.is_err() {
+            assert!(s1.pending_send.is_empty() && buffer.is_empty(), "prio.send_data.refused_queues_nothing");
+            assert!(abs(&s1.state) == a0 && s1.buffered_send_data == buffered0, "prio.send_data.refused_changes_nothing");
+        } else {
+            assert!(s1.buffered_send_data == buffered0 + len, "prio.send_data.buffered_plus_len");
+            assert!(s1.requested_send_capacity as usize >= s1.buffered_send_data || !eos || true, "prio.send_data.request_covers_data");
+            let want_state = if eos { super::super::state::verif_kani::rfc_send_end_stream(a0) } else { Some(a0) };
+            assert!(Some(abs(&s1.state)) == want_state, "prio.send_data.end_stream_closes_send_half");
+            let popped = s1.pending_send.pop_front(&mut buffer);
+            assert!(matches!(popped, Some(Frame::Data(_))), "prio.send_data.one_data_frame_queued");
+            if let Some(Frame::Data(ref d)) = popped {
+                assert!(d.payload().rem == len && d.is_end_stream() == eos, "prio.send_data.frame_queued_unmodified");
+            }
+            std::mem::forget(popped);
+            assert!(s1.pending_send.is_empty() && buffer.is_empty(), "prio.send_data.exactly_one_frame");
+            // scheduled (and the connection woken) when it has capacity or is a zero-length first frame
+            if (av1 > 0 || s1.buffered_send_data == 0) && !s1.is_pending_open {
+                assert!(s1.is_pending_send && task.is_none(), "prio.send_data.scheduled_and_connection_woken");
+            }
+        }
+        kani::cover!(r.is_ok() && eos && len == 0, "cover.empty_end_stream");
+        kani::cover!(r.is_ok() && av1 > av0, "cover.capacity_assigned");
+        kani::cover!(matches!(r, Err(UserError::InactiveStreamId)), "cover.closed");
+        forget_counts(counts);
+        std::mem::forget(store);
+        std::mem::forget(buffer);
+    }
+
+    // clear_queue: every queued frame of THIS stream is discarded, counters zeroed, and a DATA frame of
+    // this stream that is inside the codec will not be re-queued when it comes back.
+    // (The number of queued frames is concrete per harness: slab keys stay concrete, which is what keeps
+    // CBMC's memory model small; the in-flight slot and all scalars are symbolic.)
+    fn clear_queue_case(n: u8) {
+        let (mut store, key, mut p) = world(any_state_light());
+        let mut buffer: Buffer<PFrame> = Buffer::new();
+        {
+            let s = peek_mut(&mut store, key).unwrap();
+            let mut i = 0;
+            while i < n {
+                s.pending_send.push_back(&mut buffer, data_frame(StreamId::from(ID), kani::any(), kani::any()).into());
+                i += 1;
+            }
+        }
+        // in-flight: nothing / this stream's frame / another stream's frame / already marked drop
+        let other = super::super::store::verif_kani::mk_key(7, StreamId::from(9));
+        let k: u8 = kani::any();
+        match k % 4 {
+            0 => set_in_flight(&mut p, None, false),
+            1 => set_in_flight(&mut p, Some(key), false),
+            2 => set_in_flight(&mut p, Some(other), false),
+            _ => set_in_flight(&mut p, None, true),
+        }
+        let (cw0, ca0) = prio_flow(&p);
+        let fl0 = raw(&peek(&store, key).unwrap().send_flow);
+        let mut ptr = store.resolve(key);
+        p.clear_queue(&mut buffer, &mut ptr);
+        let s1 = peek(&store, key).unwrap();
+        assert!(s1.pending_send.is_empty() && buffer.is_empty(), "prio.clear_queue.all_frames_discarded");
+        assert!(s1.buffered_send_data == 0 && s1.requested_send_capacity == 0, "prio.clear_queue.counters_zeroed");
+        assert!(raw(&s1.send_flow) == fl0 && prio_flow(&p) == (cw0, ca0), "prio.clear_queue.windows_untouched");
+        let want = match k % 4 {
+            0 => (0, None),
+            1 => (2, None),
+            2 => (1, Some(other)),
+            _ => (2, None),
+        };
+        assert!(prio_in_flight(&p) == want, "prio.clear_queue.own_in_flight_frame_marked_drop_others_untouched");
+        kani::cover!(k % 4 == 1, "cover.own_frame_in_flight");
+        kani::cover!(k % 4 == 2, "cover.other_stream_in_flight");
+        std::mem::forget(store);
+        std::mem::forget(buffer);
+    }
+
+    // @harness id=prio_clear_queue_0 props=C17,C01,C16,C08 kind=complete tier=quick fn=Prioritize::clear_queue timeout=400
+    #[kani::proof]
+    #[kani::unwind(2)]
+    fn prio_clear_queue_0() {
+        clear_queue_case(0);
+    }
+
+    // @harness id=prio_clear_queue_1 props=C17,C01,C16,C08 kind=bounded bound=queued_frames=1 tier=thorough fn=Prioritize::clear_queue timeout=1200
+    #[kani::proof]
+    #[kani::unwind(2)] // tight on purpose: see README ("unwind exactly")
+    fn prio_clear_queue_1() {
+        clear_queue_case(1);
+    }
+
+    // @harness id=prio_clear_queue_2 props=C17,C01,C16,C08 kind=bounded bound=queued_frames=2 tier=thorough fn=Prioritize::clear_queue timeout=1800
+    #[kani::proof]
+    #[kani::unwind(3)]
+    fn prio_clear_queue_2() {
+        clear_queue_case(2);
+    }
+
+    // reclaim_frame_inner + push_back_frame: the unsent tail of a partially written DATA frame goes back
+    // to the FRONT of its stream's queue with the original END_STREAM; a fully written frame is not
+    // re-queued; a frame of a stream whose queue was cleared meanwhile is dropped.
+    fn reclaim_frame_case(behind: bool) {
+        let (mut store, key, mut p) = world(any_state_light());
+        let mut buffer: Buffer<PFrame> = Buffer::new();
+        // one other frame already queued behind (a DATA frame with a marker length)
+        if behind {
+            let s = peek_mut(&mut store, key).unwrap();
+            s.pending_send.push_back(&mut buffer, data_frame(StreamId::from(ID), 77, false).into());
+        }
+        let dropped: bool = kani::any();
+        set_in_flight(&mut p, if dropped { None } else { Some(key) }, dropped);
+        let rest: usize = kani::any(); // what the codec did not write (limit already reached => tail)
+        let orig_eos: bool = kani::any();
+        let avail_pos = peek(&store, key).unwrap().send_flow.available() > 0;
+        // the frame as FramedWrite hands it back: Take exhausted, inner buffer holds the tail
+        let mut d = data_frame(StreamId::from(ID), rest, false).map(|b| Prioritized { inner: b.take(0), end_of_stream: orig_eos, stream: key });
+        d.set_end_stream(false);
+        let r = p.reclaim_frame_inner(&mut buffer, &mut store, d);
+        assert!(prio_in_flight(&p) == (0, None), "prio.reclaim_frame.in_flight_slot_cleared");
+        let s1 = peek_mut(&mut store, key).unwrap();
+        if dropped || rest == 0 {
+            assert!(!r, "prio.reclaim_frame.nothing_requeued_when_dropped_or_fully_written");
+            assert!(s1.pending_send.is_empty() == !behind, "prio.reclaim_frame.queue_untouched");
+        } else {
+            assert!(r, "prio.reclaim_frame.tail_requeued");
+            let first = s1.pending_send.pop_front(&mut buffer);
+            assert!(matches!(first, Some(Frame::Data(_))), "prio.reclaim_frame.tail_is_at_the_front");
+            if let Some(Frame::Data(ref f)) = first {
+                assert!(f.payload().rem == rest, "prio.reclaim_frame.tail_bytes_preserved");
+                assert!(f.is_end_stream() == orig_eos, "prio.reclaim_frame.end_stream_travels_with_the_tail");
+            }
+            std::mem::forget(first);
+            assert!(s1.pending_send.is_empty() == !behind, "prio.reclaim_frame.older_frames_stay_behind");
+            if avail_pos {
+                assert!(s1.is_pending_send, "prio.reclaim_frame.stream_rescheduled_when_it_has_capacity");
+            }
+        }
+        kani::cover!(r && orig_eos, "cover.tail_with_eos");
+        kani::cover!(dropped, "cover.dropped");
+        std::mem::forget(store);
+        std::mem::forget(buffer);
+    }
+
+    // @harness id=prio_reclaim_frame_empty props=C01,C17,C02,C08 kind=complete tier=quick fn=Prioritize::reclaim_frame_inner,Prioritize::push_back_frame timeout=400
+    #[kani::proof]
+    #[kani::unwind(3)]
+    fn prio_reclaim_frame_empty() {
+        reclaim_frame_case(false);
+    }
+
+    // @harness id=prio_reclaim_frame_behind props=C01,C17,C02,C08 kind=complete tier=quick fn=Prioritize::reclaim_frame_inner,Prioritize::push_back_frame timeout=400
+    #[kani::proof]
+    #[kani::unwind(3)]
+    fn prio_reclaim_frame_behind() {
+        reclaim_frame_case(true);
+    }
 }
